@@ -23,6 +23,8 @@ import (
 )
 
 type walker struct {
+	pkgMode  bool
+	muName   string
 	extRefs  []string // unexported methods of the type referenced from outside its methods (exportedOnly mode)
 	fset     *token.FileSet
 	methods  map[string]*ast.FuncDecl // all methods with receiver *VM in the package
@@ -63,12 +65,21 @@ type target struct {
 	// the caller's lock and appear inlined in their callers.  A reference to such a helper from code that is not a
 	// method of the type (by name, anywhere in the package) gets an entry "external-call:<helper>" = [AOpaque].
 	exportedOnly bool
+	// package-level mode (type "-", walk ... vars=a,b mu=<mutex var>): the guarded state is a set of package-level
+	// variables of the file, the "methods" are the package-level functions of the file
+	vars   []string
+	muName string
 }
 
 func loadWalker(repo string, tg target) (*walker, error) {
 	w := &walker{fset: token.NewFileSet(), methods: map[string]*ast.FuncDecl{}, isMap: map[string]bool{},
 		fieldID: map[string]int{}, written: map[string]bool{}, selfSync: map[string]bool{}, atomic: map[string]bool{}, deep: tg.deep}
 	var others []*ast.FuncDecl
+	w.pkgMode = tg.typ == "-"
+	w.muName = tg.muName
+	if w.muName == "" {
+		w.muName = "mu"
+	}
 	dir := filepath.Join(repo, tg.dir)
 	ents, err := os.ReadDir(dir)
 	if err != nil {
@@ -86,6 +97,33 @@ func loadWalker(repo string, tg target) (*walker, error) {
 		for _, d := range f.Decls {
 			switch x := d.(type) {
 			case *ast.GenDecl:
+				if tg.typ == "-" && n == tg.file && x.Tok == token.VAR {
+					for _, sp := range x.Specs {
+						vs, ok := sp.(*ast.ValueSpec)
+						if !ok {
+							continue
+						}
+						for _, nm := range vs.Names {
+							want := false
+							for _, v := range tg.vars {
+								want = want || v == nm.Name
+							}
+							if !want {
+								continue
+							}
+							ss := false
+							if se, ok := vs.Type.(*ast.SelectorExpr); ok {
+								if pk, ok := se.X.(*ast.Ident); ok && (pk.Name == "sync" || pk.Name == "atomic") {
+									ss = true
+									w.atomic[nm.Name] = pk.Name == "atomic"
+								}
+							}
+							w.selfSync[nm.Name] = ss
+							w.fieldID[nm.Name] = len(w.fields)
+							w.fields = append(w.fields, nm.Name)
+						}
+					}
+				}
 				for _, s := range x.Specs {
 					ts, ok := s.(*ast.TypeSpec)
 					if !ok || ts.Name.Name != tg.typ || n != tg.file {
@@ -115,6 +153,15 @@ func loadWalker(repo string, tg target) (*walker, error) {
 				}
 			case *ast.FuncDecl:
 				if x.Body == nil {
+					continue
+				}
+				if tg.typ == "-" {
+					if x.Recv == nil && n == tg.file {
+						w.methods[x.Name.Name] = x
+						w.inVMGo = append(w.inVMGo, x.Name.Name)
+					} else {
+						others = append(others, x)
+					}
 					continue
 				}
 				if x.Recv == nil || len(x.Recv.List) != 1 {
@@ -153,6 +200,12 @@ func loadWalker(repo string, tg target) (*walker, error) {
 						w.extRefs = append(w.extRefs, se.Sel.Name)
 					}
 				}
+				if id, ok := n.(*ast.Ident); ok && w.pkgMode {
+					if _, isM := w.methods[id.Name]; isM && !ast.IsExported(id.Name) && !seen[id.Name] {
+						seen[id.Name] = true
+						w.extRefs = append(w.extRefs, id.Name)
+					}
+				}
 				return true
 			})
 		}
@@ -162,6 +215,9 @@ func loadWalker(repo string, tg target) (*walker, error) {
 }
 
 func recvName(fd *ast.FuncDecl) string {
+	if fd.Recv == nil {
+		return ""
+	}
 	if len(fd.Recv.List[0].Names) == 1 {
 		return fd.Recv.List[0].Names[0].Name
 	}
@@ -170,6 +226,16 @@ func recvName(fd *ast.FuncDecl) string {
 
 // vmField: is x the expression recv.<field>?
 func (e *emitter) vmField(x ast.Expr) (string, bool) {
+	if e.w.pkgMode {
+		if id, ok := x.(*ast.Ident); ok {
+			if _, ok := e.w.fieldID[id.Name]; ok {
+				if _, shadowed := e.alias["\x00local:"+id.Name]; !shadowed {
+					return id.Name, true
+				}
+			}
+		}
+		return "", false
+	}
 	se, ok := x.(*ast.SelectorExpr)
 	if !ok {
 		return "", false
@@ -191,7 +257,7 @@ func (e *emitter) muOp(c *ast.CallExpr) (string, bool) {
 		return "", false
 	}
 	f, ok := e.vmField(se.X)
-	if !ok || f != "mu" {
+	if !ok || f != e.w.muName {
 		return "", false
 	}
 	switch se.Sel.Name {
@@ -245,6 +311,9 @@ func (e *emitter) regionOf(x ast.Expr) (string, bool) {
 			x = v.X
 			depth++
 		case *ast.Ident:
+			if f, ok := e.vmField(v); ok && e.w.deep[f] {
+				return f, depth > 0
+			}
 			if f, ok := e.alias[v.Name]; ok {
 				return f, depth > 0
 			}
@@ -317,6 +386,9 @@ func (e *emitter) write(f string) {
 
 // mentionsVM: does the expression mention the receiver (other than through a plain field read)?
 func (e *emitter) mentionsRecv(x ast.Node) bool {
+	if e.recv == "" {
+		return false
+	}
 	found := false
 	ast.Inspect(x, func(n ast.Node) bool {
 		if id, ok := n.(*ast.Ident); ok && id.Name == e.recv {
@@ -336,7 +408,11 @@ func (e *emitter) expr(x ast.Expr, nested bool) {
 	}
 	switch v := x.(type) {
 	case nil:
-	case *ast.Ident, *ast.BasicLit:
+	case *ast.Ident:
+		if f, ok := e.vmField(v); ok { // package-level guarded variable
+			e.read(f)
+		}
+	case *ast.BasicLit:
 	case *ast.SelectorExpr:
 		if f, ok := e.vmField(v); ok {
 			if e.w.isMap[f] {
@@ -422,6 +498,22 @@ func (e *emitter) call(c *ast.CallExpr, nested bool) {
 			e.pathIndexes(c.Args[0], nested)
 			e.expr(c.Args[1], nested)
 			e.write(f)
+			return
+		}
+	}
+	if id, ok := c.Fun.(*ast.Ident); ok && e.w.pkgMode {
+		if callee, ok := e.w.methods[id.Name]; ok {
+			var roots []string
+			for _, a := range c.Args {
+				e.expr(a, nested)
+				roots = append(roots, e.valueRegion(a))
+			}
+			if ret := e.inline(id.Name, callee, nested, roots); ret != "" {
+				if e.callRet == nil {
+					e.callRet = map[*ast.CallExpr]string{}
+				}
+				e.callRet[c] = ret
+			}
 			return
 		}
 	}
@@ -610,6 +702,9 @@ func (e *emitter) assignTarget(lhs ast.Expr, nested bool) {
 		}
 		e.expr(v.X, nested)
 	case *ast.Ident:
+		if f, ok := e.vmField(v); ok { // package-level guarded variable
+			e.write(f)
+		}
 	case *ast.StarExpr:
 		e.expr(v.X, nested)
 	default:
@@ -729,6 +824,11 @@ func (e *emitter) stmt(s ast.Stmt, nested bool) {
 			e.expr(v.X, true)
 		}
 		if f := e.valueRegion(v.X); f != "" {
+			if _, deref := e.regionOf(v.X); !deref {
+				if _, direct := e.vmField(v.X); !direct {
+					e.read(f) // ranging over a slice/map VALUE that points into the region (a returned, un-copied header) reads it
+				}
+			}
 			e.setAlias(v.Key, f)
 			e.setAlias(v.Value, f)
 		}
